@@ -116,3 +116,38 @@ def narrow(v, unsigned_ok=False):
         if np.iinfo(t).min <= v <= np.iinfo(t).max:
             return t(v)
     return v
+
+
+def twins_one_occurrence(spec, limit=3):
+    """Twins of a model spec that differ in the bounds of ONE leaf occurrence only, by a pair that an additive hash cannot
+    tell apart (same lower+upper, or lower bound -1 <-> -2). Deepest occurrences first."""
+    import copy
+    occ = []
+
+    def rec(n, depth, path):
+        if n["k"] == "leaf":
+            occ.append((depth, path))
+        for j, c in enumerate(n.get("c", [])):
+            rec(c, depth + 1, path + [j])
+    root = spec["root"] if "root" in spec else spec
+    rec(root, 0, [])
+    out = []
+    for depth, path in sorted(occ, key=lambda t: -t[0]):
+        tw = copy.deepcopy(spec)
+        n = tw["root"] if "root" in tw else tw
+        for j in path:
+            n = n["c"][j]
+        lo, hi = n["b"]
+        if hi - lo >= 2:
+            n["b"] = [lo + 1, hi - 1]
+        elif lo == -1:
+            n["b"] = [-2, hi]
+        elif lo == -2:
+            n["b"] = [-1, hi]
+        else:
+            n["b"] = [lo - 1, hi + 1]
+        n.pop("str", None)
+        out.append(tw)
+        if len(out) >= limit:
+            break
+    return out
